@@ -13,6 +13,7 @@ CONSTANTS
   Signers = {"relayer"}
   Funds = 1000
   Fees = {0, 1}
+  WithRotate = FALSE
   SendFrom <- OneWay
 INVARIANTS TypeOK Conservation Exclusive WrappedBacked MarksExact ReceivedWasSent SeqAgree NoGap CommitIsSent OneAckPerReceipt StatusMatchesAck FeesHeld
 PROPERTIES AckStable ReceiptStable StatusOnce CommitRemovedOnlyByAck RejectChangesNothing
